@@ -121,3 +121,34 @@ func (in *Interp) runeToStr(r *Term) *StrV {
 	n := tb.Ite(is1, in.c64(1), tb.Ite(is2, in.c64(2), tb.Ite(is3, in.c64(3), in.c64(4))))
 	return in.normStr(&StrV{B: []*Term{b0, b1, b2, b3}, N: n})
 }
+
+// sprintSym is fmt.Sprint / Sprintln over possibly symbolic strings: operands that are strings are
+// concatenated exactly (Sprint adds a space only between two non-string operands); other operands
+// must be concrete.
+func (in *Interp) sprintSym(args []Value, ln bool) *StrV {
+	out := concString("")
+	prevStr := true
+	for i, a := range args {
+		v := a
+		if iv, ok := v.(IfaceV); ok {
+			v = iv.V
+		}
+		sv, isStr := v.(*StrV)
+		if i > 0 && (ln || (!isStr && !prevStr)) {
+			out = in.strConcat(out, concString(" "))
+		}
+		if isStr {
+			out = in.strConcat(out, sv)
+		} else if n, ok := in.toNative(a, nil); ok {
+			out = in.strConcat(out, concString(fmt.Sprint(n)))
+		} else {
+			in.note("fmt: opaque argument for Sprint")
+			out = in.strConcat(out, concString("<?>"))
+		}
+		prevStr = isStr
+	}
+	if ln {
+		out = in.strConcat(out, concString("\n"))
+	}
+	return out
+}
